@@ -246,7 +246,7 @@ def case(args):
 
 def run(chk):
     if not getattr(chk, 'no_lean', False):
-        chk.lean_stage(META['lean_module'], exe=True)
+        chk.lean_stage([META['lean_module'], 'Placement.Props.C19Names'], exe=True)
     n = 160 if chk.tier == 'quick' else 2400
     ctx = mp.get_context('fork')
     errors = []
